@@ -338,6 +338,116 @@ theorem parseInt_fmtInt (i : Int) (h1 : -(2 ^ 63 : Int) ≤ i) (h2 : i < 2 ^ 63)
     simp
     omega
 
+/-! ### what `Trim` can never return, and how much it removes (for the converse of `C16_string`) -/
+
+theorem rtrim_length_le (cut : UInt8 → Bool) : ∀ l : Bytes, (rtrim cut l).length ≤ l.length
+  | [] => by simp [rtrim]
+  | a :: t => by
+    have := rtrim_length_le cut t
+    rw [rtrim]
+    split
+    · split <;> simp
+    · rename_i h; simp only [List.length_cons]; omega
+
+theorem dropWhile_length_le (cut : UInt8 → Bool) : ∀ l : Bytes, (l.dropWhile cut).length ≤ l.length
+  | [] => by simp
+  | a :: t => by
+    have := dropWhile_length_le cut t
+    by_cases ha : cut a = true
+    · rw [List.dropWhile_cons_of_pos ha]; simp only [List.length_cons]; omega
+    · rw [List.dropWhile_cons_of_neg ha]; exact Nat.le_refl _
+
+theorem trim_length_le (cut : UInt8 → Bool) (l : Bytes) : (trim cut l).length ≤ l.length := by
+  unfold trim
+  exact Nat.le_trans (rtrim_length_le cut _) (dropWhile_length_le cut l)
+
+theorem rtrim_getLast (cut : UInt8 → Bool) : ∀ (l : Bytes) (x : UInt8), (rtrim cut l).getLast? = some x → cut x = false
+  | [], x, h => by simp [rtrim] at h
+  | a :: t, x, h => by
+    rw [rtrim] at h
+    cases hr : rtrim cut t with
+    | nil =>
+      rw [hr] at h
+      by_cases ha : cut a = true
+      · simp [ha] at h
+      · simp [ha] at h; subst h; simpa using ha
+    | cons b r =>
+      rw [hr] at h
+      simp only [List.getLast?_cons_cons] at h
+      exact rtrim_getLast cut t x (by rw [hr]; exact h)
+
+theorem rtrim_head (cut : UInt8 → Bool) (l : Bytes) : rtrim cut l = [] ∨ (rtrim cut l).head? = l.head? := by
+  cases l with
+  | nil => left; rfl
+  | cons a t =>
+    rw [rtrim]
+    cases hr : rtrim cut t with
+    | nil => by_cases ha : cut a = true <;> simp [ha]
+    | cons b r => right; rfl
+
+theorem dropWhile_head (cut : UInt8 → Bool) : ∀ (l : Bytes) (x : UInt8), (l.dropWhile cut).head? = some x → cut x = false
+  | [], x, h => by simp at h
+  | a :: t, x, h => by
+    by_cases ha : cut a = true
+    · rw [List.dropWhile_cons_of_pos ha] at h; exact dropWhile_head cut t x h
+    · rw [List.dropWhile_cons_of_neg ha] at h; simp at h; subst h; simpa using ha
+
+theorem trim_head (cut : UInt8 → Bool) (l : Bytes) (x : UInt8) (h : (trim cut l).head? = some x) : cut x = false := by
+  unfold trim at h
+  rcases rtrim_head cut (l.dropWhile cut) with h0 | h1
+  · rw [h0] at h; simp at h
+  · rw [h1] at h; exact dropWhile_head cut l x h
+
+theorem trim_getLast (cut : UInt8 → Bool) (l : Bytes) (x : UInt8) (h : (trim cut l).getLast? = some x) : cut x = false :=
+  rtrim_getLast cut _ x h
+
+theorem rtrim_length_lt (cut : UInt8 → Bool) : ∀ (l : Bytes) (x : UInt8), l.getLast? = some x → cut x = true →
+    (rtrim cut l).length < l.length
+  | [], x, h, _ => by simp at h
+  | [a], x, h, hc => by simp at h; subst h; simp [rtrim, hc]
+  | a :: b :: t, x, h, hc => by
+    have := rtrim_length_lt cut (b :: t) x (by simpa [List.getLast?_cons_cons] using h) hc
+    rw [rtrim]
+    split
+    · split <;> simp
+    · simp only [List.length_cons] at this ⊢; omega
+
+theorem dropWhile_getLast? (cut : UInt8 → Bool) : ∀ (l : Bytes), l.dropWhile cut ≠ [] → (l.dropWhile cut).getLast? = l.getLast?
+  | [], h => by simp at h
+  | a :: t, h => by
+    by_cases ha : cut a = true
+    · rw [List.dropWhile_cons_of_pos ha] at h ⊢
+      have ih := dropWhile_getLast? cut t h
+      rw [ih]
+      cases t with
+      | nil => simp at h
+      | cons b u => simp [List.getLast?_cons_cons]
+    · rw [List.dropWhile_cons_of_neg ha]
+
+/-- `dropWhile` runs into the padding only when the text is used up, and stops at its first byte -/
+theorem dropWhile_append_stop (cut : UInt8 → Bool) (z : Bytes) (hz : ∀ x, z.head? = some x → cut x = false) :
+    ∀ s : Bytes, (s ++ z).dropWhile cut = s.dropWhile cut ++ z
+  | [] => by simpa using dropWhile_id cut z hz
+  | a :: t => by
+    by_cases ha : cut a = true
+    · simp only [List.cons_append, List.dropWhile_cons_of_pos ha]; exact dropWhile_append_stop cut z hz t
+    · simp only [List.cons_append, List.dropWhile_cons_of_neg ha]
+
+/-- trimming a text followed by padding from the cut set never yields more than the text -/
+theorem trim_append_cut_length (cut : UInt8 → Bool) (z : Bytes) (hz : ∀ x ∈ z, cut x = true) :
+    ∀ u : Bytes, (trim cut (u ++ z)).length ≤ u.length
+  | [] => by simp [trim, dropWhile_all cut z hz, rtrim]
+  | a :: t => by
+    by_cases ha : cut a = true
+    · have := trim_append_cut_length cut z hz t
+      unfold trim at this ⊢
+      simp only [List.cons_append, List.dropWhile_cons_of_pos ha, List.length_cons]
+      omega
+    · unfold trim
+      simp only [List.cons_append, List.dropWhile_cons_of_neg ha]
+      rw [← List.cons_append, rtrim_append_cut cut _ z hz]
+      exact rtrim_length_le cut _
+
 theorem mem_of_head? {l : Bytes} {x : UInt8} (h : l.head? = some x) : x ∈ l := by
   cases l <;> simp_all
 
